@@ -16,7 +16,7 @@ ID = "C09"
 LEVEL = "exploration"
 DECIDING = ["C09.full_array", "C09.position_index", "C09.quaternion_index", "C09.decomposition"]
 RULE = ("random full grids over all direction x rotation algorithm combinations (incl. zero grids and bare numbers), n_b in 1..20, n_o in 1..45, "
-        "n_t in 1..5 with unsorted radial input; for each grid: the array, both index helpers with None / all / random subsets (repeats, unsorted), "
+        "n_t in 1..5 with unsorted radial input, also radii with 7+ decimals; for each grid: the array, both index helpers with None / all / random subsets (repeats, unsorted; returned arrays modified in place by the caller in half of the cases), "
         "and the decomposition. Non-trivial = n_b>=2 and n_o>=2 and n_t>=2; distinct by (b name, o name, radial text)")
 ASSUMPTIONS = ["quaternion columns compared bit-exactly, positions at 1e-12 relative, decomposition at 1e-8 (the code rounds to 8 decimals)",
                "radii are re-read from the text by the harness' own exact reader"]
@@ -141,6 +141,14 @@ def install():
 
 def radial(rng):
     T = rng.randint(1, 5)
+    if rng.random() < 0.25 and T >= 2:
+        # radii with many decimals in Angstrom (the decomposition must give them back, not a rounded version of them)
+        a = rng.randint(5, 150) / 100
+        form = rng.choice(["linspace", "list7"])
+        if form == "linspace":
+            return f"linspace({a}, {a + rng.randint(1, 9) / 7:.6f}, {T})", T
+        vals = sorted({round(a + rng.random(), 7) for _ in range(T)})
+        return "[" + ", ".join(repr(v) for v in vals) + "]", len(vals)
     r = sorted(rng.sample(range(5, 200), T))
     vals = [x / 100 for x in r]
     rng.shuffle(vals)
@@ -159,8 +167,15 @@ def drive(fullgrid, b, o, t, rng):
         fg = fullgrid.FullGrid(b, o, t)
         A = fg.get_full_grid_as_array()
         n = len(A)
-        fg.get_position_index()
-        fg.get_quaternion_index()
+        p_all = fg.get_position_index()
+        q_all = fg.get_quaternion_index()
+        if rng.random() < 0.5:
+            # hostile caller: works in place on what it was handed; later answers (also of other grids of equal size) must not change
+            try:
+                p_all *= 3
+                q_all += 7
+            except Exception:
+                pass
         fg.get_position_index(np.arange(n))
         sub = np.array([rng.randrange(n) for _ in range(rng.randint(1, 30))])
         fg.get_position_index(sub)
